@@ -11,11 +11,14 @@ func init() {
 	reg(&Oblig{ID: "AZ-A", Pkg: "aztec", Func: "VP_AZ_hl", Props: []string{"C03"},
 		Desc:  "high-level encoder: after concrete prefixes leaving the search in every mode mix, n symbolic bytes; the reference decoder (all five modes, latches, shifts, punctuation pairs, binary shift in short and long form) returns the payload byte for byte; payload untouched",
 		Real:  []string{"aztec.highlevelEncode", "aztec.updateStateListForChar/Pair", "aztec.updateStateForChar/Pair", "aztec.simplifyStates", "(*state).latchAndAppend/shiftAndAppend/addBinaryShiftChar/endBinaryShift/isBetterThanOrEqualTo/toBitList", "(*simpleToken).appendTo", "(*binaryShiftToken).appendTo"},
-		Stubs: []string{oracle}, Bound: "1 fully symbolic byte (all 256 values) after each of 8 prefixes (every (mode, character) pair of charMap / latchTable / shiftTable); binary runs of 1, 31, 32, 62, 63, 64, 100 symbolic bytes >= 0x80 (header forms); thorough adds 2 symbolic bytes from the initial state",
+		Stubs: []string{oracle}, Bound: "1 fully symbolic byte (all 256 values) after each of 13 prefixes (mode mixes incl. firm latches to Punct, Digit, Mixed, Lower and punctuation pairs); 2 symbolic bytes >= 0x80 after each firm latch; binary runs of 1, 31, 32, 62, 63, 64, 100 symbolic bytes >= 0x80 (header forms); thorough adds 2 symbolic bytes from the initial state",
 		Configs: func(tier string, seed int64) []map[string]int {
 			var out []map[string]int
-			for p := 0; p <= 7; p++ {
+			for p := 0; p <= 12; p++ {
 				out = append(out, map[string]int{"n": 1, "prefix": p, "class": 0})
+			}
+			for p := 8; p <= 11; p++ { // a binary run right after a firm latch
+				out = append(out, map[string]int{"n": 2, "prefix": p, "class": 1})
 			}
 			out = append(out, map[string]int{"n": 0, "prefix": 0, "class": 0})
 			for _, n := range []int{1, 31, 32, 62, 63, 64, 100} {
